@@ -3,6 +3,7 @@ package main
 import (
 	"fmt"
 	"go/types"
+	"strings"
 )
 
 // initHeapWF states, once per heap, the typing facts Go guarantees for every
@@ -14,6 +15,10 @@ func (x *Exec) initHeapWF(name string, t types.Type, twoLevel bool) {
 		return
 	}
 	x.wfHeaps[name] = true
+	if x.heapTypes == nil {
+		x.heapTypes = map[string]heapType{}
+	}
+	x.heapTypes[name] = heapType{t: t, two: twoLevel}
 	h := sanitize(name) + "@0"
 	var sel, bind string
 	if twoLevel {
@@ -34,6 +39,35 @@ func (x *Exec) initHeapWF(name string, t types.Type, twoLevel bool) {
 }
 
 type lateAxiom struct{ heap, sort, term string }
+
+// heapElemTypes remembers the Go type stored in each heap (set by initHeapWF).
+// assumeHeapWF states the typing facts for a freshly havocked heap term: whatever it
+// holds at references below the current allocation counter is well-typed with respect
+// to that counter (references it stores exist already).
+func (x *Exec) assumeHeapWF(st *State, name, term string) {
+	ht, ok := x.heapTypes[name]
+	if !ok {
+		return
+	}
+	var sel, bind string
+	if ht.two {
+		bind = "((r!w Int) (i!w Int))"
+		sel = "(select (select " + term + " r!w) i!w)"
+	} else {
+		bind = "((r!w Int))"
+		sel = "(select " + term + " r!w)"
+	}
+	body := strings.ReplaceAll(x.wfTerm(ht.t, sel, 0), "alloc0", st.alloc)
+	if body == "" || body == tTrue {
+		return
+	}
+	st.assume(fmt.Sprintf("(forall %s (! (=> (and (<= 0 r!w) (< r!w %s)) %s) :pattern (%s)))", bind, st.alloc, body, sel))
+}
+
+type heapType struct {
+	t   types.Type
+	two bool
+}
 
 // wfTerm: the well-formedness condition of a value of type t given as term.
 func (x *Exec) wfTerm(t types.Type, term string, depth int) string {
